@@ -167,6 +167,12 @@ static inline VmTrap trap_error(VmState *vm, VmResult err, const char *fmt, ...)
  * external operation (I/O, FFI, halt) or completes / errors.
  * ======================================================================== */
 
+#ifdef NANOLANG_VERIF
+/* Verification hook: instruction budget. 0 = unlimited; N > 0 = return TRAP_HALT
+ * before the N-th instruction boundary (N = 2 executes exactly one instruction). */
+long nl_verif_fuel = 0;
+#endif
+
 VmTrap vm_core_execute(VmState *vm) {
     const uint8_t *code = vm->module->code;
 
@@ -178,6 +184,9 @@ VmTrap vm_core_execute(VmState *vm) {
 
     /* Main dispatch loop */
     while (vm->ip < code_end) {
+#ifdef NANOLANG_VERIF
+        if (nl_verif_fuel > 0 && --nl_verif_fuel == 0) return trap_halt();
+#endif
         DecodedInstruction instr;
         uint32_t consumed = isa_decode(code + vm->ip, code_end - vm->ip, &instr);
         if (consumed == 0) {
